@@ -1,3 +1,8 @@
 SPECIFICATION Spec
+CONSTANTS
+  Thorough = FALSE
+  Seed0 = 1
+  Emit = TRUE
+  Part = "all"
 INVARIANT Theorems
 CHECK_DEADLOCK FALSE
